@@ -310,6 +310,13 @@ class Gen:
                 name, params, body = R.parse_macro_rules(it.text)
                 self.macros[name] = (params, body)
         self.effectful = set(self.specs.EFFECTFUL)
+        # names of the crate's async fns and of its fns returning a boxed / impl future (for the R4 guard)
+        self.async_names = set()
+        for f, raw in self.src.raw.items():
+            t = strip_comments(raw)
+            self.async_names |= set(re.findall(r"\basync\s+fn\s+(\w+)", t))
+            self.async_names |= set(re.findall(r"\bfn\s+(\w+)\s*(?:<[^{;]*?>)?\s*\([^{;]*?\)\s*->\s*(?:BoxFuture|impl\s+(?:std::future::|core::future::)?Future)", t, re.S))
+        self.async_names -= {"new", "from", "clone"}
 
     # ---- one function
     def fn_text(self, file, item, key, lifted_name=None, self_ty=None):
@@ -321,11 +328,11 @@ class Gen:
             return self._fn_text_full(file, item, key, lifted_name, self_ty, assumed=True)
         try:
             return self._fn_text_full(file, item, key, lifted_name, self_ty)
-        except (Unsupported, LexError) as e:
+        except Exception as e:   # Unsupported / LexError, or a rule tripping over a shape it was not written for
             if item.body is None:
                 raise
             self.assume.add(key)
-            self.assume_reasons[key] = "extraction: %s" % e
+            self.assume_reasons[key] = "extraction: %s%s" % ("" if isinstance(e, (Unsupported, LexError)) else "rule failed on this shape: %s: " % type(e).__name__, e)
             return self._fn_text_full(file, item, key, lifted_name, self_ty, assumed=True)
 
     def _fn_text_full(self, file, item, key, lifted_name=None, self_ty=None, assumed=False):
@@ -373,6 +380,7 @@ class Gen:
             ap("R5", R.rule_select, spec.get("select_carrier", "actor"))
         if spec.get("dyn_calls"):
             ap("R10-dyn", R.rule_dyn_calls, spec["dyn_calls"])
+        ap("R4-lazy", R.rule_lazy_futures, self.async_names)
         ap("R8-T", R.rule_timeout)
         ap("R8-M", R.rule_map_err)
         ap("R8-F", R.rule_fetch_update)
@@ -591,7 +599,11 @@ class Gen:
             have = {ch.name for ch in impl.children if ch.kind == "fn"}
             for n in names:
                 if n not in have:
-                    raise Unsupported("lost anchor: fn %s in %s" % (n, impl.header))
+                    # the function no longer exists under this name (renamed / merged / removed): nothing to extract; its
+                    # contract cannot be checked on this tree -> the properties it serves are undecided, the rest stay decidable
+                    k = "%s::%s" % (key_prefix, n)
+                    self.assume.add(k)
+                    self.assume_reasons[k] = "lost anchor: fn %s no longer exists in %s" % (n, impl.header)
         parts.append("}")
         if bare:
             # only the lifted members are emitted (Clone / From impls for Box<dyn _>, rule R10)
